@@ -337,8 +337,8 @@ def main():
             return (f"let c := {ch} in match chain_to_dict 100 (c_decays c) (c_mother c) with None => VErr \"OutOfFuel\" "
                     f"| Some d => VList [vcdict d; vcres (chain_from_dict d)] end")
         if k == "parser":
-            import c09
-            T = c09.coq_tables(c09.first_tables(c["stmts"]))
+            # the parser form: the model reads the same text (coq/Dec/Pipeline.v) and builds the chain from its own tables
+            T = f"(match read_dec cc sc_of {cstr(c['text'])} with Some (_, T0) => T0 | None => [] end)"
             return (f"match build 60 {T} [] {cstr(c['mother'])} with Some (Some d) => "
                     f"VList [vcdict (sort_cd d); match chain_from_dict d with COk ch => match chain_to_dict 100 (c_decays ch) (c_mother ch) with "
                     f"Some d2 => vcdict (sort_cd d2) | None => VErr \"OutOfFuel\" end | CErr e => VErr e end] | _ => VErr \"build\" end")
@@ -360,8 +360,9 @@ Definition vcmode (md : cmode) : val :=
     VList [vq bf; VList (map (fun f => match f with FName n => VStr n | FSub c' => vcdict c' end) fs);
            VList (map (fun kv => VList [VStr (fst kv); snd kv]) meta)] end.
 """
-    model = vlib.run_model("C11", ["Lib.PyDict", "Decay.Conj", "Decay.Flatten", "Decay.ChainDict", "Dec.Tables", "Decay.ChainClass", "Gen.GenParticles"],
-                           "fun v : val => v", [term(c) for c in cases], shard=200, preamble=pre)
+    model = vlib.run_model("C11", ["Lib.PyDict", "Decay.Conj", "Decay.GenTables", "Decay.Flatten", "Decay.ChainDict", "Dec.Tables", "Decay.ChainClass", "Gen.GenParticles", "Dec.Pipeline"],
+                           "fun v : val => v", [term(c) for c in cases], shard=200,
+                           preamble="Definition sc_of (n : string) : option bool := pd_get n (t_selfconj gen_tables)." + pre)
     diffs = vlib.compare_veq(ck, cases, impl, model)
     ck.cov["distinct_nontrivial"] = len({json.dumps(enc(c), sort_keys=True) for c in cases})
     ck.cov["rule"] = ("modes: random final states (multiplicity 1..4) with nested JSON-like metadata incl. model_params=None; "
